@@ -35,6 +35,7 @@
 #define SAMPLES_PER_DATA_MIN            (SAMPLE_DECIMATE_FACTOR_MIN)
 #define ENTRIES_PER_SUMMARY_MIN         (SAMPLE_DECIMATE_FACTOR_MIN)
 #define SUMMARY_DECIMATE_FACTOR_MIN     (SAMPLE_DECIMATE_FACTOR_MIN)
+#define TS_DECIMATE_FACTOR_MIN           (2)   // annotation & UTC index entries per chunk
 #define F64_BUF_LENGTH_MIN (1 << 16)
 #define PAYLOAD_SIZE_MAX (1ULL << 30)  // largest data or summary payload accepted for a definition, in bytes
 #define SIGNAL_MASK  (0x0fff)
@@ -208,6 +209,8 @@ static void signal_def_defaults(struct jls_signal_def_s * def) {
     d = &SIGNAL_32_DEFAULTS;
     SIGNAL_DEF_DEFAULT(annotation_decimate_factor);
     SIGNAL_DEF_DEFAULT(utc_decimate_factor);
+    def->annotation_decimate_factor = u32_max(def->annotation_decimate_factor, TS_DECIMATE_FACTOR_MIN);
+    def->utc_decimate_factor = u32_max(def->utc_decimate_factor, TS_DECIMATE_FACTOR_MIN);
 }
 
 int32_t jls_core_signal_def_align(struct jls_signal_def_s * def) {
